@@ -1,5 +1,5 @@
 /* Native replay for the MPSInput unit: runs the REAL soplex::MPSInput::readLine().
- * The counterexample of instance readLine_terminates is "the stream is at end of file when the comment-skipping
+ * The counterexample of the termination obligation (mutant old_defect_spins_at_eof / the tree before 5b543b9) is "the stream is at end of file when the comment-skipping
  * loop asks for the next line" - i.e. a truncated MPS file.  The driver calls readLine() on such a stream under a
  * watchdog; if the call has not returned after 5 seconds of CPU time the real code violates termination. */
 #include <replay_util.h>
